@@ -14,6 +14,18 @@ import (
 // armOwner says which property an arm's code scheme serves.
 var armOwner = map[string]string{}
 
+// armAlso lists further properties an arm's scheme is checked under.
+var armAlso = map[string][]string{}
+
+func alsoOwns(arm, prop string) bool {
+	for _, p := range armAlso[arm] {
+		if p == prop {
+			return true
+		}
+	}
+	return false
+}
+
 func init() {
 	for _, a := range []string{"BoolOp", "BinOp", "UnaryOp", "IfExp", "Dict", "Set", "Compare", "Attribute", "Subscript", "Starred", "Name", "List", "Tuple",
 		"Num", "Str", "Bytes", "NameConstant", "Ellipsis", "Assign", "AugAssign", "Delete", "ListComp", "SetComp", "DictComp", "GeneratorExp", "Yield", "YieldFrom"} {
@@ -29,6 +41,11 @@ func init() {
 		armOwner["*ast."+a] = "C19"
 	}
 	armOwner["*ast.ExprStmt"] = "C20"
+	// forms that build a closure also serve C03: the cells handed to the new function are numbered by the parent's
+	// cell and free variable lists (C03.R11)
+	for _, a := range []string{"FunctionDef", "Lambda", "ClassDef", "ListComp", "SetComp", "DictComp", "GeneratorExp"} {
+		armAlso["*ast."+a] = append(armAlso["*ast."+a], "C03")
+	}
 
 	reg := func(id, prop, doc string, floor int) {
 		register(&Rule{ID: id, Prop: prop, Floor: floor, Doc: doc, Run: func(c *Ctx, r *Rep) { runEmitSpec(c, r, prop) }})
@@ -39,6 +56,7 @@ func init() {
 	reg("C04.R2", "C04", "call-site and function-object operand protocol: callee, positionals, (name, value) keyword pairs, *args, **kwargs, opcode by star-forms, packed argc; decorators first, then defaults, kw-defaults, annotations, names tuple, closure, code, qualname, MAKE_FUNCTION/MAKE_CLOSURE, decorator calls"+how, 4)
 	reg("C19.R5", "C19", "import code schemes: one IMPORT_NAME per alias/module with (level, fromlist) constants, IMPORT_FROM + store per name, final POP_TOP, IMPORT_STAR; dotted `import a.b` binds a, `import a.b as c` walks attributes"+how, 2)
 	reg("C20.R2", "C20", "echo protocol (compiler half): PRINT_EXPR only for expression statements of the interactive top level (interactive && depth<=1), POP_TOP otherwise, nothing for constant expression statements"+how, 1)
+	reg("C03.R11", "C03", "closure construction: the forms that make a function object from a code object with free variables load one cell per free variable of the child, numbered by the parent's own cell and free variable lists, then the code, the qualified name and MAKE_CLOSURE"+how, 5)
 	reg("C12.R8", "C12", "scope prologues and epilogues (compileAst per scope kind): module and class bodies go through docString, the interactive top level does not; class bodies store __module__/__qualname__ first and return the __class__ cell when needed; comprehensions load their iterator argument, build the result and return it; every scope ends in RETURN_VALUE exactly once (implicit `return None` only when the stream does not already end in one)"+how, 8)
 	register(&Rule{ID: "C12.R5", Prop: "C12", Floor: 40,
 		Doc: "block and loop-stack balance in the emitter: on every non-panicking path of every node form, c.loops.Push/Pop are balanced (also inside each loop iteration) and every SETUP_LOOP/EXCEPT/FINALLY/WITH emission is matched by exactly one POP_BLOCK",
@@ -138,7 +156,7 @@ func runEmitSpec(c *Ctx, r *Rep, prop string) {
 			}
 			continue
 		}
-		if owner != prop {
+		if owner != prop && !(a.method != "compileAst" && alsoOwns(a.arm, prop)) {
 			continue
 		}
 		key := fmt.Sprintf("compile|%s|%s", a.method, a.arm)
